@@ -1,6 +1,7 @@
 package main
 
 import (
+	"fmt"
 	"go/token"
 	"go/types"
 	"strings"
@@ -277,13 +278,18 @@ type PVal struct {
 	K   int64
 	V   ssa.Value
 	At  int
+	Loc string // when set: the content a location had when the path began (never stored to before the read)
+	Off int64  // added to the opaque part (V@At or Loc)
 }
 
 func (a PVal) same(b PVal) bool {
 	if a.IsK || b.IsK {
 		return a.IsK && b.IsK && a.K == b.K
 	}
-	return a.V == b.V && a.At == b.At
+	if a.Loc != "" || b.Loc != "" {
+		return a.Loc == b.Loc && a.Off == b.Off
+	}
+	return a.V == b.V && a.At == b.At && a.Off == b.Off
 }
 
 // lastOcc: index of the latest occurrence of in at or before at.
@@ -363,6 +369,19 @@ resolve:
 					}
 					return PVal{IsK: true, K: a.K - b.K}
 				}
+				// opaque ± constant
+				if !a.IsK && b.IsK && (a.V != nil || a.Loc != "") {
+					if x.Op == token.ADD {
+						a.Off += b.K
+					} else {
+						a.Off -= b.K
+					}
+					return a
+				}
+				if a.IsK && !b.IsK && x.Op == token.ADD && (b.V != nil || b.Loc != "") {
+					b.Off += a.K
+					return b
+				}
 			}
 		}
 	case *ssa.UnOp:
@@ -387,6 +406,12 @@ resolve:
 				return PVal{IsK: true, K: 0}
 			}
 		}
+		// the location's content from before the path: the same unknown wherever it is read
+		if _, isAl := want.Root.(*ssa.Alloc); !isAl {
+			if _, partial, _ := p.storedBeforeRawP(occs, pos, want); !partial {
+				return PVal{Loc: fmt.Sprintf("%p|%s", want.Root, want.SelString())}
+			}
+		}
 		return PVal{V: v, At: pos}
 	}
 	return PVal{V: v, At: at}
@@ -396,6 +421,17 @@ resolve:
 // to the location want denotes (its occurrence index is returned so that the
 // value can be evaluated as of the store).
 func (p CPath) storedBeforeRaw(occs []OccPos, at int, want AP) (ssa.Value, int, bool) {
+	v, _, i, ok := p.storedBeforeRawP2(occs, at, want)
+	return v, i, ok
+}
+
+// storedBeforeRawP: (value, an overlapping store made the content unknown, found).
+func (p CPath) storedBeforeRawP(occs []OccPos, at int, want AP) (ssa.Value, bool, bool) {
+	v, partial, _, ok := p.storedBeforeRawP2(occs, at, want)
+	return v, partial, ok
+}
+
+func (p CPath) storedBeforeRawP2(occs []OccPos, at int, want AP) (ssa.Value, bool, int, bool) {
 	ws := want.SelString()
 	for i := at - 1; i >= 0; i-- {
 		st, ok := occs[i].In.(*ssa.Store)
@@ -408,14 +444,14 @@ func (p CPath) storedBeforeRaw(occs []OccPos, at int, want AP) (ssa.Value, int, 
 		}
 		as := a.SelString()
 		if as == ws {
-			return st.Val, i, true
+			return st.Val, false, i, true
 		}
 		// a store to an enclosing or enclosed part of the location: not tracked
 		if strings.HasPrefix(ws, as) || strings.HasPrefix(as, ws) {
-			return nil, -1, false
+			return nil, true, -1, false
 		}
 	}
-	return nil, -1, false
+	return nil, false, -1, false
 }
 
 // fieldAt: the value the field sel of the object root holds as of occurrence at.
@@ -427,6 +463,11 @@ func (p CPath) fieldAt(occs []OccPos, at int, root ssa.Value, sel string) PVal {
 	}
 	if al, isAl := root.(*ssa.Alloc); isAl && lastOcc(occs, at, al) >= 0 {
 		return PVal{IsK: true, K: 0}
+	}
+	if _, isAl := root.(*ssa.Alloc); !isAl {
+		if _, partial, _ := p.storedBeforeRawP(occs, at, want); !partial {
+			return PVal{Loc: fmt.Sprintf("%p|%s", root, sel)}
+		}
 	}
 	return PVal{V: root, At: -1}
 }
